@@ -220,7 +220,16 @@ impl Context {
         b: Node,
         op: BinaryOpcode,
     ) -> Result<Node, BadNode> {
-        self.op_binary(a.min(b), a.max(b), op)
+        // Constants are kept on the right-hand side, matching the operand
+        // order of the register-immediate tape ops (`v[arg] op imm`); this
+        // matters for min / max, where ties return the right-hand operand.
+        let a_const = matches!(self.get_op(a), Some(Op::Const(..)));
+        let b_const = matches!(self.get_op(b), Some(Op::Const(..)));
+        match (a_const, b_const) {
+            (true, false) => self.op_binary(b, a, op),
+            (false, true) => self.op_binary(a, b, op),
+            _ => self.op_binary(a.min(b), a.max(b), op),
+        }
     }
 
     /// Builds an addition node
